@@ -8,7 +8,7 @@ from pyvc.spec import ContractSet
 
 HOME = os.environ.get('VERIF_HOME', os.path.dirname(os.path.dirname(os.path.abspath(__file__))))
 
-_MODULES = ['ghosts', 'externals', 'datatypes', 'consensus', 'coinstate', 'manager', 'network', 'mining', 'pow', 'lemmas']
+_MODULES = ['ghosts', 'externals', 'datatypes', 'consensus', 'coinstate', 'manager', 'network', 'mining', 'pow', 'local_peer', 'lemmas']
 _cset = None
 
 
@@ -49,6 +49,10 @@ def _tx_key(eng, x, st):
 
 # level / notes per property; functions and lemmas come from the props tags on the contracts
 PROPS = {
+    'C20': dict(level='proof',
+                explanation="exceptional post-condition 'nothing escapes' of the selector-event handler and of disconnect; "
+                            "handler frames by reachability over the real AST; rejection paths of the two state-changing "
+                            "handlers by their contracts (C09, C13)"),
     'C12': dict(level='proof', native=['native.c12'],
                 explanation="contracts of the two MinerWatcher handlers and of the block-assembly functions (proof); that "
                             "an assembled block is never refused by the node's own validators is additionally exercised by "
